@@ -23,6 +23,13 @@ static const unsigned char C02_ZERO_MASK_SPEC[32] = {
 };
 
 
+/* ghost variables of the stream contracts: a function enforced against its frame while its hash calls are replaced must be
+ * allowed to "assign" them (they are not program memory) */
+#ifdef C02_FRAME_UNITS   /* tentative definitions, repeated in the HASHLOG2 section below */
+int g_fin_n, g_h_fresh, g_w_hit, g_w_started, g_w_fin, g_w2_fin; unsigned char g_w_byte, g_w_dig[32], g_w2_dig[32]; uint32_t g_w_s0, g_w_s7; uint64_t g_w_b0, g_w_end, g_w2_end;
+#endif
+#define C02_HASH_GHOSTS g_fin_n, g_h_fresh, g_w_hit, g_w_byte, g_w_started, g_w_s0, g_w_s7, g_w_b0, g_w_fin, g_w_end, g_w_dig, g_w2_fin, g_w2_end, g_w2_dig
+
 /* ---- call log of secp256k1_schnorrsig_challenge ----
  * Slot selected by the watch g_chal_w (never assigned by code or contracts): the call number
  * g_chal_w (0-based) records its pointer arguments, the CONTENT of r32 and pubkey32 at call time
@@ -46,6 +53,8 @@ __CPROVER_ensures(__CPROVER_old(g_chal_n) == g_chal_w
        CH_B32(g_chal_r32, r32) && CH_B32(g_chal_pk, pubkey32) && SC_EQ(g_chal_e, *e))
     : (g_chal_hit == __CPROVER_old(g_chal_hit) && g_chal_r32p == __CPROVER_old(g_chal_r32p) && g_chal_msgp == __CPROVER_old(g_chal_msgp) && g_chal_pkp == __CPROVER_old(g_chal_pkp) &&
        g_chal_msglen == __CPROVER_old(g_chal_msglen) && g_chal_hc == __CPROVER_old(g_chal_hc) && CH_K32(g_chal_r32) && CH_K32(g_chal_pk) && SC_KEEP(g_chal_e)))
+#elif defined(C02_FRAME_UNITS)
+__CPROVER_assigns(*e, C02_HASH_GHOSTS)
 #else
 __CPROVER_assigns(*e)
 #endif
@@ -80,7 +89,7 @@ __CPROVER_ensures(__CPROVER_old(g_nf_n) == 0
 static int nonce_function_bip340_impl(const secp256k1_hash_ctx *hash_ctx, unsigned char *nonce32, const unsigned char *msg, size_t msglen, const unsigned char *key32, const unsigned char *xonly_pk32, const unsigned char *algo, size_t algolen, void *data)
 __CPROVER_requires(hash_ctx != NULL && __CPROVER_w_ok(nonce32, 32) && __CPROVER_r_ok(key32, 32) && __CPROVER_r_ok(xonly_pk32, 32) && (msglen == 0 || __CPROVER_r_ok(msg, msglen)))
 __CPROVER_requires((algo == NULL || algolen == 0 || __CPROVER_r_ok(algo, algolen)) && (data == NULL || __CPROVER_r_ok(data, 32)))
-__CPROVER_assigns(__CPROVER_object_upto(nonce32, 32))
+__CPROVER_assigns(__CPROVER_object_upto(nonce32, 32), C02_HASH_GHOSTS)
 __CPROVER_ensures(__CPROVER_return_value == 0 || __CPROVER_return_value == 1)
 ;
 #endif
